@@ -142,7 +142,7 @@ CLAIMED["C06"] = dict(
          "the contexts stay consistent, nothing raises, and whatever is delivered is the concatenation of the fragments the peer produced "
          "(C06_fragment_step = no fabrication), and a context holding all indices is complete and joins to the payload. Model tied to "
          "connection.py by two-party differentials with several fragmented messages in flight under reorder/duplication/loss at MTU "
-         "512..1500, comparing every delivery by length and CRC-32.",
+         "512..1500, comparing every delivery by length and CRC-32. History level: C06_fragments_history - for every sequence of authentic fragment arrivals (any order, repetition, interleaving, arrival times / expiry) no exception is raised and every reassembled delivery is the concatenation of the fragments produced for one send.",
     note=TRUST + "relative to one message per fragment id in the considered history (16-bit id space) and authentic fragments (C01).",
     design="§8 C06", technique="Lean 4 proof (split/join induction, slot-consistency invariant) + differential correspondence")
 
@@ -153,13 +153,15 @@ CLAIMED["C07"] = dict(
          "C07_timeout_resolves_all_due); a True resolution happens only for a datagram the received header names "
          "(C07_true_only_if_named) and a named datagram was accepted by the peer (C07_ack_names_accepted, via the window refinement of "
          "C08/C04); a RetrySender reports its first success once and is silent afterwards, a FragmentSender reports exactly when its last "
-         "slot is resolved. At history level, C07_at_most_once: over every history (any network, any peer) the number of invocations "
-         "of a callback is bounded by the number of sends that were given it (BEST_EFFORT excluded, as in the property); that every send "
-         "is eventually resolved is per-sweep theorem + monitor on every differential run (two-party histories with long round trips, "
-         "partial loss, stale and duplicated ack carriers).",
+         "slot is resolved. At history level: C07_at_most_once - over every history (any network, any peer) the number of invocations "
+         "of a callback is bounded by the number of sends that were given it (BEST_EFFORT excluded, as in the property); C07_conservation / "
+         "C07_exactly_once / C07_held_until_invoked - without disconnect (typed queue proved, fresh datagram numbers assumed) holders + "
+         "invocations are conserved, so a callback given to one accepted send is held until it is invoked and invoked exactly once when no "
+         "longer held; that every holder is eventually released is per-sweep theorem + monitor on every differential run (two-party "
+         "histories with long round trips, partial loss, stale and duplicated ack carriers).",
     note=TRUST + "InSync (peer's newest within half a ring); user callbacks do not re-enter; 'accepted' is read at endpoint level; "
-         "at-most-once over whole histories is the Lean theorem C07_at_most_once (potential argument); at-least-once as a count over a history "
-         "is per-sweep theorem + monitor.",
+         "at-most-once and conservation (exactly-once once released) over whole histories are Lean theorems (potential argument); eventual "
+         "release of every holder is per-sweep theorem + monitor.",
     design="§8 C07", technique="Lean 4 proof (per-step bookkeeping theorems, ack-names-accepted composition) + differential correspondence")
 
 CLAIMED["C05"] = dict(
@@ -268,7 +270,7 @@ CLAIMED["C11"] = dict(
          "SERVER_HELLO. The loop model is a total function whose exception paths are explicit 'contained' branches. Tied to the real "
          "loop as in C10 with hostile streams (random bytes 0..2000, garbage bodies, truncated/complete strangers' hellos, block-listed "
          "sources, spoofed damaged/stale/re-typed copies of genuine datagrams) at MTU 512/1500; the monitor measures bytes in/out per "
-         "unpromoted address, block-list silence and loop liveness.",
+         "unpromoted address, block-list silence and loop liveness. Whole runs: C11_update_every_iteration / C11_loop_never_stalls - every iteration reaches handler.update exactly once and n iterations deliver n update events, whatever was queued and whatever the handler does.",
     note=TRUST + "exceptions from C extensions / OS errors / CPU exhaustion outside; the byte inequality of no-amplification rests on DER sizes "
          "and C14's fixed hello size - measured on every run, not a Lean theorem (partial).",
     design="§8 C11", technique="Lean 4 proof (entry gating, frame/isolation of the pools, structural no-amplification) + recorded differential of the real server loop")
